@@ -18,15 +18,24 @@ RULE = ("call sequences over {connect, disconnect, stream_start, stream_stop, su
 CALLS = ["connect", "disconnect", "stream_start", "stream_stop", "sub", "unsub", "enable", "write"]
 
 
-def run_seq(calls, streaming, enabled, scale=0.01):
+def run_seq(calls, streaming, enabled, scale=0.01, lost_ack_at=None, nchan=2):
     from nxslib.nxscope import NxscopeHandler
     from nxslib.proto.parse import Parser
     refdev.install_fast_clock(scale)
     before = set(threading.enumerate())
-    chans = refdev.simple_chans(2)
+    chans = refdev.simple_chans(nchan)
     for c in chans:
         c["en"] = enabled
-    dev = refdev.RefDevice(chans, flags=3, streaming=streaming)
+    seen = []
+
+    def policy(i, kind, payload):
+        # optionally: the acknowledgement of the n-th enable request is lost (the request is applied)
+        if kind == "enable":
+            seen.append(i)
+            if lost_ack_at is not None and len(seen) - 1 == lost_ack_at:
+                return "lostack"
+        return "ok"
+    dev = refdev.RefDevice(chans, flags=3, streaming=streaming, policy=policy)
     nx = NxscopeHandler(dev, Parser())
     out, subs, descr = [], [], []
     extra = []
@@ -54,6 +63,8 @@ def run_seq(calls, streaming, enabled, scale=0.01):
                         nx.stream_unsub(queue.Queue())
                 elif k == "enable":
                     nx.ch_enable(1)
+                elif k.startswith("enable_now"):
+                    nx.ch_enable(int(k[10:]), True)
                 else:
                     nx.channels_write()
             nreq = len(dev.log)
@@ -121,6 +132,21 @@ def cases(run):
     return out
 
 
+def lost_ack_cases(run):
+    """a session in which one acknowledgement of an enable request is lost: whatever happened before, after the
+    closing disconnect the device must have every channel disabled (closing checks of run_seq; no model)"""
+    out = []
+    seqs = [("connect", "enable_now0", "enable_now1"), ("connect", "enable_now0", "enable_now1", "stream_start"),
+            ("connect", "enable_now1", "enable_now2", "enable_now0"), ("connect", "stream_start", "enable_now2", "enable_now0")]
+    for s in seqs:
+        for at in (0, 1, 2):
+            got, extra = run_seq(s, False, False, lost_ack_at=at, nchan=3)
+            run.count("lost-ack-session", (s, at))
+            for e in extra:
+                out.append((e, "lifecycle with the ACK of enable request #%d lost: %s,disconnect" % (at, ",".join(s)), got))
+    return out
+
+
 def main(run):
     run.regen()
     run.prove()
@@ -134,6 +160,9 @@ def main(run):
                 run.violation(e, {"call": c["cmd"], "implementation": c["impl"]})
         for what, c, m in run.differential(cs):
             run.violation(what, {"call": c["cmd"][:2000], "implementation": c["impl"][:3000], "model": m[:3000]})
+        if not run.violations:
+            for e, call, got in lost_ack_cases(run)[:1]:
+                run.violation(e, {"call": call, "implementation": got})
     else:
         run.proof_ok = False
     return run.finish(rule=RULE, extra_cov={"exhaustive": True}, assumptions=[
